@@ -132,7 +132,8 @@ def getISOTXSLibrariesToMerge(xsLibrarySuffix, xsLibFileNames):
             for iso in isosToMerge
             if "-" not in os.path.basename(iso)
             and not any(
-                iso == os.path.basename(iws).split("-")[0] for iws in isosWithSuffix
+                os.path.basename(iso) == os.path.basename(iws).split("-")[0]
+                for iws in isosWithSuffix
             )
         ]
         isosToMerge += isosWithSuffix
